@@ -101,6 +101,11 @@ CHECKS = {
             'Operator x operand-type sweep (14 binary and 4 unary operators x 8 operand types, as literals and as declared variables, at top level and inside a function), misuse cells (member of another class, renamed function / variable / field / method / class, non-callable, non-indexable ...), every violating single-point edit of the C05/C06/C07/C09 sweeps (wrong argument / initialiser / receiver / return value, dropped or added argument, nullable source, undefined use) placed on an executed path with callee bodies that use their arguments, plus well-typed sweep and random programs.',
             'Every edit stands on an executed path; exceptions outside the four classes are fine. No reference model decides anything: CPython does.',
             'DESIGN.md section 4, C04'),
+    'C15': ('exploration',
+            'metamorphic runtime monitor: program and renamed program both transpiled by the real pipeline; verdicts compared; ast(out(rho P)) compared with rho(ast(out(P))) using a renaming transformer on the Python AST; both outputs executed',
+            'A template program with every slot kind (variable, parameter, function, class, exception class, class argument, body field, method, method parameter, loop variable, match binder, handle variable, tuple components; with sqrt, Optional and `?` on a field so that generator-special names matter) x the adversarial pool one name at a time (names the generator emits or special-cases: size, init, super, math, typing, abc, Optional, Union, NewType, ABC, abstractmethod, int, str, list, isinstance, value, dunder-like and underscore forms, 1- and 40-letter names ...), plus sweep and generated programs with sampled single renamings and full renamings into ordinary names.',
+            'Never renamed from or to: self, __init__, operator names, names defined in the default context and keywords; a pool name counts as fresh only if the program does not already use it.',
+            'DESIGN.md section 4, C15'),
 }
 
 NOT_YET = 'monitor not built yet in this revision (construction order: DESIGN.md section 9); not claimed rather than claimed weakly'
